@@ -10,18 +10,20 @@
 (*     boundary facet, one inner facet, the five compile operations, clear), one witness history per distinct         *)
 (*     machine state (VIEW), and prints for each the expected compiled list.                                          *)
 (* (b) INTEGRALS.  For the compiled list the assembled objects are integrals over the selected facets, every pair     *)
-(*     (facet, cell) counted once:  sum of the mass matrix = measure;  v^T msh u = int u v;  functional vector           *)
-(*     b.u = int f u, sum b = int f;  assemble_discrete_integral(u_h) = int u;  a functional that uses the normal     *)
-(*     computed by the assembler (tau.normal): b.u = int g u n_k (outer normal: facet orientation);                   *)
-(*     assemble_flow_accum: int v_k, int d_l v_k, int p.   All values are exact (AsmXMesh.tla).                       *)
+(*     (facet, cell) counted once:  sum of the boundary mass matrix B = measure;  v^T B u = int u v;  functional      *)
+(*     vector b.u = int f u, sum b = int f;  assemble_discrete_integral(u_h) = int u;  a functional that uses the     *)
+(*     normal computed by the assembler (tau.normal): b.u = int g u n_k (outer normal: facet orientation);            *)
+(*     assemble_flow_accum: int v_k, int d_l v_k, int p;  the jump operator J(u,v) = int [u][v] and the kernel of     *)
+(*     the jump stabilisation (gradient jumps) on inner facets.   All values are exact (AsmXMesh.tla).                *)
 EXTENDS AsmXMesh, Json
 
 CONSTANTS Tier,        \* 0 quick, 1 thorough
           MeshSel,     \* names of the meshes of the catalogue handled by this run
           NVariants,   \* variants 0..NVariants-1 of every mesh
           MaxOps,      \* length bound of the histories
-          DegSlack     \* cubature rules auto-degree:k for k in Req..Req+DegSlack
-ASSUME Tier \in {0, 1} /\ NVariants \in 1..8 /\ MaxOps \in 1..8 /\ DegSlack \in 0..2
+          DegSlack,    \* cubature rules auto-degree:k for k in Req..Req+DegSlack
+          CanonLen     \* the compiled lists reached by at most CanonLen operations get the full set of integral checks
+ASSUME Tier \in {0, 1} /\ NVariants \in 1..8 /\ MaxOps \in 1..8 /\ DegSlack \in 0..2 /\ CanonLen \in 1..4
 
 VARIABLES msh,        \* the mesh (a variant of a catalogue mesh), constant along a behaviour
           vk,       \* its variant number
@@ -69,7 +71,7 @@ Init ==
   /\ mask = {} /\ comp = {} /\ cleared = FALSE /\ pre = << {}, {} >> /\ hist = << >>
 
 Step(op, m2, c2, cl2) ==
-  /\ Len(hist) < (IF vk = 0 THEN MaxOps ELSE 2)      \* the long histories on the mesh as generated, the short ones on every variant
+  /\ Len(hist) < (IF vk = 0 THEN MaxOps ELSE CanonLen)      \* the long histories on the mesh as generated, the short ones on every variant
   /\ mask' = m2 /\ comp' = c2 /\ cleared' = cl2 /\ hist' = Append(hist, op)
   /\ pre' = IF op.op = "clear" THEN <<mask, comp>> ELSE pre
   /\ UNCHANGED <<msh, vk, geo>>
@@ -189,7 +191,7 @@ MeshJson == [name |-> msh.name, shape |-> msh.shape, dim |-> msh.dim, class |-> 
              route |-> IF vk % 2 = 0 THEN "deduct" ELSE "factory"]
 LastOp == IF hist = << >> THEN "none" ELSE hist[Len(hist)].op
 \* canonical states get the full set of integral checks, every state the selection check
-Canonical == ~cleared /\ Len(hist) <= 2 /\ LastOp \in {"compile", "all"} /\ comp # {}
+Canonical == ~cleared /\ Len(hist) <= CanonLen /\ LastOp \in {"compile", "all"} /\ comp # {}
 CaseId == msh.name \o "_v" \o ToString(vk) \o "_h" \o ToString(Len(hist))
 
 Emit ==
